@@ -37,10 +37,10 @@ const c00Deadline = 20 * time.Second
 
 type c00LM struct{ ch chan tcp.ConnWithVRF }
 
-func (l *c00LM) ListenAddrsPerVRF(*vrf.VRF) []string          { return nil }
-func (l *c00LM) GetListeners(*vrf.VRF) []tcp.ListenerI        { return nil }
-func (l *c00LM) CreateListenersIfNotExists(*vrf.VRF) error    { return nil }
-func (l *c00LM) AcceptCh() chan tcp.ConnWithVRF               { return l.ch }
+func (l *c00LM) ListenAddrsPerVRF(*vrf.VRF) []string       { return nil }
+func (l *c00LM) GetListeners(*vrf.VRF) []tcp.ListenerI     { return nil }
+func (l *c00LM) CreateListenersIfNotExists(*vrf.VRF) error { return nil }
+func (l *c00LM) AcceptCh() chan tcp.ConnWithVRF            { return l.ch }
 
 // c00Rig is one server instance.
 type c00Rig struct {
@@ -87,7 +87,9 @@ func (r *c00Rig) c00PeerCfg(peerIP, localIP bnet.IP, localAS, peerAS uint32) Pee
 	}
 }
 
-func routingtableBestOnly() routingtable.ClientOptions { return routingtable.ClientOptions{BestOnly: true} }
+func routingtableBestOnly() routingtable.ClientOptions {
+	return routingtable.ClientOptions{BestOnly: true}
+}
 
 // c00Connect delivers a new inbound connection from peerIP to the server and
 // waits until the new FSM has sent its OPEN (i.e. is in OpenSent with its
